@@ -25,7 +25,7 @@ import (
 //go:embed embedtree
 var c19embed embed.FS
 
-var c19names = []string{"a", "b", "c.jet", "x.html.jet", "d", "e.jet", "é.jet", "with space"}
+var c19names = []string{"a", "b", "c.jet", "x.html.jet", "d", "e.jet", "é.jet", "with space", "v1..2", "welcome..en.jet", "..hidden", "...jet", "a.b..c"} // (two dots inside a name are no dot segment)
 
 func c19canon(r *rand.Rand) string {
 	n := 1 + r.Intn(3)
